@@ -95,6 +95,8 @@ impl StunMessageTimeout {
 //@end
 //@item stun_agent :: mod timeout > impl StunMessageTimeout > fn check
 //@tags C06 C11 C05 C12
+//@prefix
+    #[verifier::spinoff_prover]
 //@spec
     requires old(self).wf(),
     ensures final(self).wf(),
